@@ -2,6 +2,7 @@ package c12
 
 import (
 	"fmt"
+	"math"
 	"strconv"
 	"strings"
 )
@@ -559,4 +560,14 @@ func (m *model) clauses(o op) []string {
 		}
 	}
 	return out
+}
+
+// drawPrio draws a priority: mostly 0..2 (so that equal priorities are common), sometimes
+// negative values and the extremes of int (a comparison by subtraction overflows there).
+func drawPrio(r interface{ Intn(int) int }) int {
+	if r.Intn(5) != 0 {
+		return r.Intn(3)
+	}
+	ext := []int{math.MaxInt, math.MinInt, math.MaxInt - 1, math.MinInt + 1, -1, -2, 1 << 40, -(1 << 40), math.MaxInt32, math.MinInt32}
+	return ext[r.Intn(len(ext))]
 }
